@@ -1,11 +1,17 @@
 /-
   C01 — Point evaluation computes the function the expression denotes.
-  Chain: expression --(C07: flatten_sound / the optimiser)--> optimised expression
-         --(Deck: checked per run: the real tape decompiles to the real optimised tree)--> tape
-         --(decompile_sound)--> slot values --(batch_slotwise)--> every slot of every batch.
+  Chain: expression --(C07: flatten_sound / optimize_sound)--> optimised expression
+         --(deck_tape_correct: model of Deck::Deck's emission loop, for every node list meeting
+            walk()'s specification)--> tape
+         --(tape_denotes)--> slot values --(batch_slotwise)--> every slot of every batch.
+  `deck_eval_correct` composes the first three arrows.  The tie still checks per run that the real
+  Deck's tape decompiles to the real optimised tree.
 -/
 import LibfiveProofs.TapeExpr
 import LibfiveProofs.ExprSound
+import LibfiveProofs.Deck
+import LibfiveProofs.OptimizeSound
+import LibfiveProofs.WellArity
 
 namespace Libfive.C01
 open Libfive Expr
@@ -42,6 +48,74 @@ theorem constant_fold_sound [Field α] [DecidableEq C] {K : ConstOps C} {I : Int
     (L : Lawful K I) (op : Op) (a b : C) (e : Env α) (h : op.args = some 2) :
     denote I (mkBinary K op (const a) (const b)) e = I.bin op (I.const a) (I.const b) := by
   rw [mkBinary_sound L op _ _ e h]; rfl
+
+/-! ### Deck::Deck -/
+
+section deck
+open Libfive.Deck Libfive.Optimize
+variable [DecidableEq C]
+
+/-- **deck_tape_correct.**  For every node list `flat` meeting the specification of `walk()` (no
+    node twice, operands before users, no remap/apply/invalid nodes) whose unary / binary nodes carry
+    opcodes of that arity, and every node `m` of it: running the tape `Deck::Deck` emits, on slots
+    holding the constants, variable values and point coordinates, leaves `m`'s value in `m`'s slot
+    (any interpretation of the opcodes, any oracles). -/
+theorem deck_tape_correct (I : Interp C α) (e : Env α) (flat : List (Expr C)) (root : Expr C)
+    (hT : TopoFlat flat) (hA : ∀ m ∈ flat, nodeArity m) (m : Expr C) (hm : m ∈ flat) :
+    evalList (evTape I) (orcTable I e flat) (build flat root).t (slots0 I e flat) (idOf flat m)
+      = denote I m e :=
+  build_eval I e flat root hT hA m hm
+
+/-- **deck_wf.**  The emitted base tape is well-formed in the sense every `Tape::push` theorem of
+    C05 assumes (ids non-zero and distinct, operands refer to later clauses or leaf slots). -/
+theorem deck_wf (flat : List (Expr C)) (root : Expr C) (hT : TopoFlat flat) : WF (build flat root).t :=
+  build_wf flat root hT
+
+/-- **deck_eval_correct (expression → optimised expression → tape → value).**  For a well-formed
+    tree `t` (any sharing, nested remap / apply), with `o = optimize (flatten t)` what
+    `Tree::optimized()` returns and `flat` any node list of `o` meeting `walk()`'s specification:
+    the root slot of the evaluated deck holds the mathematical value of `t`, over any field with a
+    lawful interpretation of the opcodes (all non-arithmetic opcodes uninterpreted). -/
+theorem deck_eval_correct [Field α] {K : ConstOps C} {I : Interp C α} (L : LawfulOpt K I)
+    (le : Expr C → Expr C → Bool) (t : Expr C) (hw : wellArity t) (e : Env α)
+    (flat : List (Expr C)) (hT : TopoFlat flat) (hA : ∀ m ∈ flat, nodeArity m)
+    (hroot : optimize K le (flatten K t) ∈ flat) :
+    let o := optimize K le (flatten K t)
+    evalList (evTape I) (orcTable I e flat) (build flat o).t (slots0 I e flat) (build flat o).root
+      = denote I t e := by
+  intro o
+  have h1 := build_eval I e flat o hT hA o hroot
+  have h2 : denote I o e = denote I t e := by
+    show denote I (optimize K le (flatten K t)) e = denote I t e
+    rw [Libfive.Optimize.optimize_sound L le _ e (wellArity_flatten K t hw),
+      Libfive.flatten_sound L.toLawful t e hw]
+  rw [← h2]; exact h1
+
+/-- **walk_spec_satisfiable.**  The specification assumed of `walk()` is met by the post-order
+    traversal (with structural de-duplication) of EVERY flattened expression, and the root is in
+    the list — so `deck_tape_correct` / `deck_eval_correct` are not vacuous for any tree. -/
+theorem walk_spec_satisfiable (o : Expr C) (hp : plainDeep o) :
+    TopoFlat (postorder o) ∧ o ∈ postorder o :=
+  postorder_spec o hp
+
+/-- **walk_spec_test_sound.**  The executable test the correspondence driver runs on the node list
+    recovered from every real deck implies the specification. -/
+theorem walk_spec_test_sound (flat : List (Expr C)) (h : topoFlatB flat = true) : TopoFlat flat :=
+  topoFlatB_sound flat h
+
+-- the specification is satisfiable and the model computes: `max(min(x,y)+c, min(x,y))` (shared
+-- sub-term) in post-order is 5 nodes; the tape has 3 clauses, root id 1, and is well-formed
+def exDag : Expr Nat := .bin .max (.bin .add (.bin .min .x .y) (.const 7)) (.bin .min .x .y)
+example : postorder exDag = [.x, .y, .bin .min .x .y, .const 7, .bin .add (.bin .min .x .y) (.const 7), exDag] := by
+  decide
+example : (build (postorder exDag) exDag).t = [⟨.max, 1, 2, 4⟩, ⟨.add, 2, 4, 3⟩, ⟨.min, 4, 6, 5⟩] := by decide
+example : (build (postorder exDag) exDag).root = 1 := by decide
+example : wfb (build (postorder exDag) exDag).t = true := by decide
+example : (postorder exDag).Nodup ∧ (∀ m ∈ postorder exDag, plainNode m = true) := by decide
+example : ∀ i, i < (postorder exDag).length →
+    ∀ c ∈ children ((postorder exDag).getD i .invalid), (postorder exDag).idxOf c < i := by decide
+
+end deck
 
 -- satisfiability: the tape of `max(min(x,y), z)` (slots x=4 y=5 z=6) decompiles to that expression
 example : decompileF (C := Nat) (fun s => if s = 4 then Expr.x else if s = 5 then Expr.y else Expr.z)
